@@ -4,7 +4,9 @@
    ALL results and ALL valuations.  Not provable in Coq (explored by the sweep, see notes/C05.md): that the
    Rust/C decoders and lifters return at all (no panic / abort / non-termination) on every byte string. *)
 From Coq Require Import ZArith List Bool Lia.
-From Falcon Require Import Base.Res IL.Const IL.Expr IL.Func Exec.Sem Lift.Wf Lift.GuardDecide Lift.WfProofs Lift.C05Check.
+From Falcon Require Import Base.Res IL.Const IL.Expr IL.Func Exec.Sem Lift.Wf Lift.GuardDecide Lift.WfProofs Lift.C05Check
+  Lift.MirrorWf Lift.MirrorA64.
+From Falcon Require Isa.Mips Isa.MipsLift Isa.Ppc Isa.PpcLift Isa.A64 Isa.A64Lift.
 Import ListNotations.
 Local Open Scope Z_scope.
 
@@ -46,6 +48,54 @@ Theorem env_ok_satisfiable : forall l, scalars_consistent l = true ->
   forallb (fun t => 1 <=? sbits t) l = true -> env_ok (zero_env l) l.
 Proof. exact GuardDecide.env_ok_satisfiable. Qed.
 Print Assumptions env_ok_satisfiable.
+
+(* 6. [U] the lifter MIRRORS (Gallina transcriptions of the Rust builders, tied per encoding to the real lifters by the
+      syntactic ties of C02 / C03) are total and produce only well-formed, deterministic blocks, for EVERY value of
+      every register / immediate / shift / extend / address / temporary-id field -- no range hypothesis for MIPS
+      and PPC (the fields are arbitrary integers), the encodable ranges (established by decode) for A64. *)
+
+(* MIPS: every block of the mirror -- one plain instruction, or a branch + delay slot + branch graph with its
+   (merged) successors -- for every word, address, byte order, temporary numbering *)
+Theorem mips_mirror_block_good : forall bg addr ws temps l len,
+  MipsLift.mirror_block bg addr ws temps = Some l ->
+  wf_result 32 (mkbr (fst l) addr len (snd l)) = true /\ Det_result (mkbr (fst l) addr len (snd l)).
+Proof. exact MirrorWf.MipsW.mirror_block_good. Qed.
+Print Assumptions mips_mirror_block_good.
+
+(* MIPS: a mirrored builder never fails -- neither Panic nor a sort error -- whatever the fields *)
+Theorem mips_lift_always_ok : forall bg i a ts r, MipsLift.lift_plain bg i a ts = Some r -> exists g, r = Ok g.
+Proof. exact MirrorWf.MipsW.mips_always_ok. Qed.
+Print Assumptions mips_lift_always_ok.
+Theorem mips_branch_no_panic : forall b a, MipsLift.pre_graph b a <> Some Panic /\ MipsLift.post_graph b a <> Some Panic.
+Proof. exact MirrorWf.MipsW.mips_branch_no_panic. Qed.
+Print Assumptions mips_branch_no_panic.
+
+(* PPC *)
+Theorem ppc_mirror_block_good : forall addr w temps l len,
+  PpcLift.pmirror_block addr w temps = Some l ->
+  wf_result 32 (mkbr (fst l) addr len (snd l)) = true /\ Det_result (mkbr (fst l) addr len (snd l)).
+Proof. exact MirrorWf.PpcW.pmirror_block_good. Qed.
+Print Assumptions ppc_mirror_block_good.
+Theorem ppc_lift_always_ok : forall i a ts r ss, PpcLift.plift i a ts = Some (r, ss) -> exists g, r = Ok g.
+Proof. exact MirrorWf.PpcW.ppc_no_panic. Qed.
+Print Assumptions ppc_lift_always_ok.
+
+(* A64: fields in their encodable ranges (MirrorA64.A64W.fields_ok; every decoded word satisfies it) *)
+Theorem a64_no_panic : forall addr i, MirrorA64.A64W.fields_ok i -> A64Lift.lift addr i <> Panic.
+Proof. exact MirrorA64.A64W.a64_no_panic. Qed.
+Print Assumptions a64_no_panic.
+Theorem a64_block_good : forall addr i b len, MirrorA64.A64W.fields_ok i -> A64Lift.lift addr i = Ok b ->
+  wf_result 64 (mkbr [(addr, A64Lift.graph_of addr (fst b))] addr len (snd b)) = true /\
+  Det_result (mkbr [(addr, A64Lift.graph_of addr (fst b))] addr len (snd b)).
+Proof. exact MirrorA64.A64W.a64_block_good. Qed.
+Print Assumptions a64_block_good.
+Theorem a64_word_good : forall addr w i, A64.decode w = Some i ->
+  A64Lift.lift addr i <> Panic /\
+  forall b len, A64Lift.lift addr i = Ok b ->
+    wf_result 64 (mkbr [(addr, A64Lift.graph_of addr (fst b))] addr len (snd b)) = true /\
+    Det_result (mkbr [(addr, A64Lift.graph_of addr (fst b))] addr len (snd b)).
+Proof. exact MirrorA64.A64W.a64_word_good. Qed.
+Print Assumptions a64_word_good.
 
 (* examples: a complementary pair over a wide comparison is accepted, and the theorem applies *)
 Definition ex_x : expr := EScalar (mks 0%N 32 None).
